@@ -159,11 +159,21 @@ pub fn meta_pool(i: u8) -> Option<MetaMap> {
             let big: Vec<u8> = (0..70_000u32).map(|x| (x * 13 % 253) as u8).collect();
             m(&[("big", &big), ("v", &[7])])
         }
+        8 => {
+            // six entries of 32 KiB each (192 KiB serialized): large AND multi-entry - two equal maps built separately
+            // iterate in different orders, so their serialized forms differ
+            let mut mm = MetaMap::new();
+            for e in 0..6u32 {
+                let val: Vec<u8> = (0..32_768u32).map(|x| ((x + e) * 11 % 247) as u8).collect();
+                mm.insert(format!("entry-{}", e), val);
+            }
+            Some(mm)
+        }
         _ => m(&[("v", &[1])]),
     }
 }
 pub const META_POOL_SMALL: u8 = 4; // indexes 0..4 are used by the history engines
-pub const META_POOL_ALL: u8 = 8;
+pub const META_POOL_ALL: u8 = 9;
 
 /// Deterministic value bytes: a function of the op position, the length and the fill kind only
 pub fn value_bytes(op_idx: usize, vlen: u32, fill: u8) -> Vec<u8> {
@@ -328,7 +338,8 @@ pub fn vlen_thresholds() -> BoxedStrategy<u32> {
 pub fn vlen_thresholds_big() -> BoxedStrategy<u32> {
     prop_oneof![
         19 => vlen_thresholds(),
-        1 => prop_oneof![Just(1_048_575u32), Just(1_048_576u32), Just(1_049_093u32), Just(3_145_729u32)],
+        // (beyond 4 MiB: block-wise checksumming, if any, has a remainder block there)
+        1 => prop_oneof![Just(1_048_575u32), Just(1_048_576u32), Just(1_049_093u32), Just(3_145_729u32), Just(4_194_304u32), Just(5_244_114u32), Just(7_340_031u32)],
     ]
     .boxed()
 }
